@@ -487,6 +487,42 @@ def build(run):
         return proved("z3(path-exhaustive)", vcs=n, sample="estimate(Form) >= degree of every integrand, estimate(Integral) >= its integrand, for all element degrees")
     run.add("estimate_total_polynomial_degree/entry-points(Form, Integral)", entry_points, kind="values")
 
+    # ---- the argument that derivative() creates for a TUPLE of coefficients lives on an internal mixed element: its degree bounds every block, in
+    # whichever order the coefficients (low degree first / last) are listed; estimates of the expanded derivative and of compute_form_data hold
+    def derivative_mixed_argument():
+        from ufl import derivative, grad, inner
+        from ufl.algorithms import compute_form_data, expand_derivatives
+        dxm = ufl.Measure("dx", domain=tri)
+        n = 0
+        degs = (1, 2, 3, 4)
+        combos = [c_ for c_ in itertools.product(degs, repeat=2)] + [(1, 3, 2), (3, 1, 2), (1, 1, 4), (4, 1, 1), (2, 4, 1), (1, 2, 3)]
+        for ds_ in combos:
+            cs = [ufl.Coefficient(ufl.FunctionSpace(tri, elem(d_, (2,) if k_ % 2 else ()))) for k_, d_ in enumerate(ds_)]
+            # the first coefficient enters through its value, the others through their gradients only
+            F = cs[0] * cs[0] * dxm
+            true = 2 * ds_[0]
+            for c_, d_ in zip(cs[1:], ds_[1:]):
+                F = F + inner(grad(c_), grad(c_)) * dxm
+                true = max(true, 2 * (d_ - 1))
+            J = derivative(F, tuple(cs))
+            arg = [a_ for a_ in J.arguments()] or [a_ for a_ in expand_derivatives(J).arguments()]
+            el = arg[0].ufl_element()
+            n += 1
+            if el.embedded_superdegree < max(ds_):
+                return violated(f"derivative(F, coefficients of degrees {ds_}): the created argument's element reports degree {el.embedded_superdegree}, below its block of degree {max(ds_)}",
+                                replay={"degrees": list(ds_)}, reproduced=True, backend="exec")
+            Je = expand_derivatives(J)
+            ests = {"estimate_total_polynomial_degree(expand_derivatives(J))": estimate_total_polynomial_degree(Je)}
+            fd = compute_form_data(J)
+            ests["compute_form_data(J)"] = max(it_.metadata()["estimated_polynomial_degree"] for idt in fd.integral_data for it_ in idt.integrals)
+            for nm_, e_ in ests.items():
+                n += 1
+                if e_ < true:
+                    return violated(f"J = derivative(c0*c0*dx + sum_k |grad c_k|^2 dx, (c0, c1, ...)) with element degrees {ds_}: {nm_} = {e_}, the true polynomial degree is {true}",
+                                    replay={"degrees": list(ds_), "route": nm_, "estimate": e_, "true": true}, reproduced=True, backend="exec")
+        return proved("exec(finite)", vcs=n, sample=f"{len(combos)} degree tuples (every order): the created mixed argument bounds each block; both estimation routes >= the true degree")
+    run.add("derivative-created-mixed-argument/degree-bounds-every-block", derivative_mixed_argument, kind="values")
+
     # ---- attach_estimated_degrees: what compute_form_data attaches to each integral is an estimate of THAT integrand, whatever
     # metadata the integral already carries (forms are re-processed after replace()/reconstruct(), so an annotation may be stale)
     def attach():
